@@ -108,6 +108,7 @@ def sub(s, t, W):
 
 
 _MS = MethodSet([dict(pos=[("x", ("raw", "int"), False)]), dict(pos=[("x", ("obj",), False)])])
+_MS2 = MethodSet([dict(pos=[("x", ("raw", "int"), False)]), dict(pos=[("x", ("raw", "int"), False)]), dict(pos=[("x", ("obj",), False)])])
 
 
 def make_run(W, shape, known_active=None):
@@ -148,6 +149,38 @@ def make_run(W, shape, known_active=None):
             info = dict(type=tstr(T), value_class=f"K{c}" if c != n else "object", subclasscheck=got, isinstance=inst_ok,
                         dispatch=list(out), reflexive=refl)
             return Verdict(post, (), info, ["member" if got else "non-member"], nontrivial=got)
+
+        return run
+    elif kind == "two":
+        # two types of one constructor in one function (two Deferred references, two Exactly, ...): they are different types, each method is
+        # reachable exactly for the classes its own type accepts
+        T1, T2 = totuple(shape["t1"]), totuple(shape["t2"])
+        c = shape["c"]
+        ms2 = _MS2
+
+        def run(ctx):
+            FINDER.world = W
+            try:
+                hs, LOG, ns = ms2.instantiate(W)
+                hs[0].__annotations__ = {"x": build13(T1, W)}
+                hs[1].__annotations__ = {"x": build13(T2, W)}
+                ov = Ovld()
+                ov.register(hs[0], priority=0)
+                ov.register(hs[1], priority=0)
+                ov.register(hs[2], priority=-1)
+                inst = W.inst[c] if c != n else object()
+                out, res = outcome_of(lambda: ov.dispatch(inst), LOG)
+            except Exception as e:  # noqa: BLE001
+                return Verdict(False, (), dict(types=[tstr(T1), tstr(T2)], raised=f"{type(e).__name__}: {e}"[:160]), ["raised"], nontrivial=True)
+            finally:
+                sys.modules.pop(DEFMOD, None)
+                sys.modules.pop(DEFMOD + ".inner", None)
+            m1, m2 = member13(T1, c, W), member13(T2, c, W)
+            post = z3.And(z3.Implies(z3.And(m1, z3.Not(m2)), z3.BoolVal(out == ("ran", 0))),
+                          z3.Implies(z3.And(m2, z3.Not(m1)), z3.BoolVal(out == ("ran", 1))),
+                          z3.Implies(z3.Not(z3.Or(m1, m2)), z3.BoolVal(out == ("ran", 2))))
+            info = dict(types=[tstr(T1), tstr(T2)], value_class=f"K{c}" if c != n else "object", dispatch=list(out))
+            return Verdict(post, (), info, [str(out[0])], nontrivial=out in (("ran", 0), ("ran", 1)))
 
         return run
     else:
@@ -194,6 +227,10 @@ def gen_shapes(tier, seed):
     shapes = [dict(kind="member", n=n, t=t, c=c) for t in universe(n, depth) for c in range(n + 1)]
     g = generics(n)
     shapes += [dict(kind="pair", n=n, s=s, t=t) for s in g for t in g]
+    K = [("K", i) for i in range(n)]
+    twos = [(("Def", 0), ("Def", 1)), (("Def", 1), ("DefSub", 0)), (("Ex", K[0]), ("Ex", K[1])), (("SS", K[0]), ("SS", K[1])),
+            (("Def", 0), ("Ex", K[1])), (("HM", "hm"), ("Def", 1))]
+    shapes += [dict(kind="two", n=n, t1=a, t2=b, c=c) for a, b in twos for c in range(n + 1)]
     return shapes, len(shapes), False
 
 
